@@ -170,6 +170,9 @@ def jobs(tier):
             add(c10.Speed(n), "speed", light)
             add(c12.Attenuated(n, "range", False), "simple", light)
             add(c12.Attenuated(n, "range", True), "simple", ("ndarray",))
+        if n in (3, 4):
+            # time stamps in any order: where a value is missing does not depend on the order of the axis
+            add(c10.RateOfChange(n, ordered=False), "roc", ("ndarray",))
         if n in (2, 3):
             # fixes less than a second apart: 0 whole seconds elapsed must not turn a present position into MISSING
             add(c10.Speed(n, frac=True, min_step=0), "speed", ("ndarray",))
